@@ -225,6 +225,11 @@ def match_known(sig, prop, known):
         if f['property'] != prop:
             continue
         for pat in f['signatures']:
+            if pat.startswith('re:'):
+                import re
+                if re.fullmatch(pat[3:], sig):
+                    return f
+                continue
             if sig == pat or (('*' in pat or '?' in pat) and fnmatch.fnmatchcase(sig, pat)):
                 return f
     return None
